@@ -40,7 +40,7 @@ struct Backing<const T: usize>([u8; T]);
 /// Runs `f(slice, len, off)` on a slice of symbolic length `len <= n` that starts `off < align` bytes past an
 /// 8-aligned address, in the middle of a T-byte backing array full of symbolic garbage; then checks the canaries.
 fn with_buf<const T: usize>(n: usize, align: usize, f: impl FnOnce(&mut [u8], usize, usize)) {
-    assert!(align <= 8 && PRE + (align - 1) + n < T);
+    assert!(align <= 8 && PRE + (align - 1) + n < T, "harness: internal");
     let mut back = Backing::<T>(kani::any());
     let orig = back.0;
     let (len, off) = any_len_off(n, align);
@@ -123,17 +123,17 @@ fn c15_sbool_new_in_place() {
         c15_outcome!(r, off, len, 12);
         if let Ok(v) = r {
             // C03: read back
-            assert!(*v == val);
-            assert!(v.x == x && v.y == y && bool::from(v.flag) == f && bool::from(v.arr[0]) == a0 && bool::from(v.arr[1]) == a1);
-            assert!(v.size() == 12);
+            assert!(*v == val, "C03: read-back / byte image / validation");
+            assert!(v.x == x && v.y == y && bool::from(v.flag) == f && bool::from(v.arr[0]) == a0 && bool::from(v.arr[1]) == a1, "C03: read-back / byte image / validation");
+            assert!(v.size() == 12, "C03: read-back / byte image / validation");
             // C03: byte image (native layout), non-padding bytes only
             let img = v.as_bytes();
-            assert!(img.len() == 12);
-            assert!(rd_u16(img, 0) == x);
-            assert!(img[2] == bool_byte(f) && img[3] == bool_byte(a0) && img[4] == bool_byte(a1));
-            assert!(rd_u32(img, 8) == y);
+            assert!(img.len() == 12, "C03: read-back / byte image / validation");
+            assert!(rd_u16(img, 0) == x, "C03: read-back / byte image / validation");
+            assert!(img[2] == bool_byte(f) && img[3] == bool_byte(a0) && img[4] == bool_byte(a1), "C03: read-back / byte image / validation");
+            assert!(rd_u32(img, 8) == y, "C03: read-back / byte image / validation");
             // C03: bytes validate
-            assert!(SBool::validate(b).is_ok());
+            assert!(SBool::validate(b).is_ok(), "C03: read-back / byte image / validation");
         }
     });
 }
@@ -147,21 +147,21 @@ fn c15_sstruct_new_in_place() {
         let r = SStruct::new_in_place(b, val.clone());
         c15_outcome!(r, off, len, 24);
         if let Ok(v) = r {
-            assert!(*v == val);
-            assert!(v.size() == 24);
+            assert!(*v == val, "C03: read-back / byte image / validation");
+            assert!(v.size() == 24, "C03: read-back / byte image / validation");
             let img = v.as_bytes();
-            assert!(img.len() == 24);
-            assert!(img[0] == val.a);
-            assert!(rd_u16(img, 2) == val.b);
-            assert!(rd_u32(img, 4) == val.c);
+            assert!(img.len() == 24, "C03: read-back / byte image / validation");
+            assert!(img[0] == val.a, "C03: read-back / byte image / validation");
+            assert!(rd_u16(img, 2) == val.b, "C03: read-back / byte image / validation");
+            assert!(rd_u32(img, 4) == val.c, "C03: read-back / byte image / validation");
             let d0 = val.d[0].to_ne_bytes();
             let d1 = val.d[1].to_ne_bytes();
             let mut i = 0;
             while i < 8 {
-                assert!(img[8 + i] == d0[i] && img[16 + i] == d1[i]);
+                assert!(img[8 + i] == d0[i] && img[16 + i] == d1[i], "C03: read-back / byte image / validation");
                 i += 1;
             }
-            assert!(SStruct::validate(b).is_ok());
+            assert!(SStruct::validate(b).is_ok(), "C03: read-back / byte image / validation");
         }
     });
 }
@@ -183,18 +183,18 @@ fn c15_senum_new_in_place() {
         let r = SEnum::new_in_place(b, val.clone());
         c15_outcome!(r, off, len, 8);
         if let Ok(v) = r {
-            assert!(*v == val);
-            assert!(v.size() == 8);
+            assert!(*v == val, "C03: read-back / byte image / validation");
+            assert!(v.size() == 8, "C03: read-back / byte image / validation");
             let img = v.as_bytes();
-            assert!(img.len() == 8);
+            assert!(img.len() == 8, "C03: read-back / byte image / validation");
             assert!(img[0] == which, "C03: tag byte is not the variant index");
             match which {
                 0 => {}
-                1 => assert!(rd_u16(img, 4) == p16 && img[6] == p8),
-                2 => assert!(img[4] == p8 && rd_u16(img, 6) == p16),
-                _ => assert!(rd_u32(img, 4) == p32),
+                1 => assert!(rd_u16(img, 4) == p16 && img[6] == p8, "C03: read-back / byte image / validation"),
+                2 => assert!(img[4] == p8 && rd_u16(img, 6) == p16, "C03: read-back / byte image / validation"),
+                _ => assert!(rd_u32(img, 4) == p32, "C03: read-back / byte image / validation"),
             }
-            assert!(SEnum::validate(b).is_ok());
+            assert!(SEnum::validate(b).is_ok(), "C03: read-back / byte image / validation");
         }
     });
 }
@@ -210,10 +210,10 @@ fn c15_cenum_new_in_place() {
         let r = CEnum::new_in_place(b, val);
         c15_outcome!(r, off, len, 1);
         if let Ok(v) = r {
-            assert!(*v == val);
-            assert!(v.size() == 1);
-            assert!(v.as_bytes().len() == 1 && v.as_bytes()[0] == which);
-            assert!(CEnum::validate(b).is_ok());
+            assert!(*v == val, "C03: read-back / byte image / validation");
+            assert!(v.size() == 1, "C03: read-back / byte image / validation");
+            assert!(v.as_bytes().len() == 1 && v.as_bytes()[0] == which, "C03: read-back / byte image / validation");
+            assert!(CEnum::validate(b).is_ok(), "C03: read-back / byte image / validation");
         }
     });
 }
@@ -227,16 +227,16 @@ fn c15_pstruct_new_in_place() {
         let r = PStruct::new_in_place(b, PStruct { a, b: le::U16::from(x), c: be::U32::from(y), f: Bool::from(f) });
         c15_outcome!(r, off, len, 8);
         if let Ok(v) = r {
-            assert!(v.a == a && u16::from(v.b) == x && u32::from(v.c) == y && bool::from(v.f) == f);
-            assert!(v.size() == 8);
+            assert!(v.a == a && u16::from(v.b) == x && u32::from(v.c) == y && bool::from(v.f) == f, "C03: read-back / byte image / validation");
+            assert!(v.size() == 8, "C03: read-back / byte image / validation");
             let img = v.as_bytes();
-            assert!(img.len() == 8);
-            assert!(img[0] == a);
+            assert!(img.len() == 8, "C03: read-back / byte image / validation");
+            assert!(img[0] == a, "C03: read-back / byte image / validation");
             assert!(img[1] == x.to_le_bytes()[0] && img[2] == x.to_le_bytes()[1], "C03: le::U16 is not stored little-endian");
             let yb = y.to_be_bytes();
             assert!(img[3] == yb[0] && img[4] == yb[1] && img[5] == yb[2] && img[6] == yb[3], "C03: be::U32 is not stored big-endian");
-            assert!(img[7] == bool_byte(f));
-            assert!(PStruct::validate(b).is_ok());
+            assert!(img[7] == bool_byte(f), "C03: read-back / byte image / validation");
+            assert!(PStruct::validate(b).is_ok(), "C03: read-back / byte image / validation");
         }
     });
 }
@@ -258,14 +258,14 @@ fn c15_ustruct_new_in_place() {
         let need = ceil_to(6 + k, 2);
         c15_outcome!(r, off, len, need);
         if let Ok(v) = r {
-            assert!(v.a == a && v.b == bb);
+            assert!(v.a == a && v.b == bb, "C03: read-back / byte image / validation");
             assert!(v.c.len() == k, "C03: vector length differs from the emplaced array");
-            assert!(v.c.capacity() == floor_to(len, 2) - 6);
+            assert!(v.c.capacity() == floor_to(len, 2) - 6, "C03: read-back / byte image / validation");
             assert!(v.size() == need, "C03/C05: size() is not the documented size of the content");
             let s = v.c.as_slice();
             let img = v.as_bytes();
-            assert!(img.len() == floor_to(len, 2));
-            assert!(img[0] == a && rd_u16(img, 2) == bb && rd_u16(img, 4) as usize == k);
+            assert!(img.len() == floor_to(len, 2), "C03: read-back / byte image / validation");
+            assert!(img[0] == a && rd_u16(img, 2) == bb && rd_u16(img, 4) as usize == k, "C03: read-back / byte image / validation");
             let mut i = 0;
             while i < 5 {
                 if i < k {
@@ -274,7 +274,7 @@ fn c15_ustruct_new_in_place() {
                 }
                 i += 1;
             }
-            assert!(UStruct::validate(b).is_ok());
+            assert!(UStruct::validate(b).is_ok(), "C03: read-back / byte image / validation");
         }
     });
 }
@@ -297,26 +297,26 @@ fn c15_upad_new_in_place() {
         let need = ceil_to(10 + k, 8);
         c15_outcome!(r, off, len, need);
         if let Ok(v) = r {
-            assert!(v.a == a);
-            assert!(v.v.len() == k);
-            assert!(v.v.capacity() == floor_to(len, 8) - 10);
+            assert!(v.a == a, "C03: read-back / byte image / validation");
+            assert!(v.v.len() == k, "C03: read-back / byte image / validation");
+            assert!(v.v.capacity() == floor_to(len, 8) - 10, "C03: read-back / byte image / validation");
             assert!(v.size() == need, "C03/C05: size() is not the documented (padded) size of the content");
             let s = v.v.as_slice();
             let img = v.as_bytes();
-            assert!(img.len() == floor_to(len, 8));
+            assert!(img.len() == floor_to(len, 8), "C03: read-back / byte image / validation");
             let ab = a.to_ne_bytes();
             let mut i = 0;
             while i < 8 {
-                assert!(img[i] == ab[i]);
+                assert!(img[i] == ab[i], "C03: read-back / byte image / validation");
                 i += 1;
             }
-            assert!(rd_u16(img, 8) as usize == k);
+            assert!(rd_u16(img, 8) as usize == k, "C03: read-back / byte image / validation");
             let mut i = 0;
             while i < 7 {
-                if i < k { assert!(s[i] == e[i] && img[10 + i] == e[i]); }
+                if i < k { assert!(s[i] == e[i] && img[10 + i] == e[i], "C03: read-back / byte image / validation"); }
                 i += 1;
             }
-            assert!(UPad::validate(b).is_ok());
+            assert!(UPad::validate(b).is_ok(), "C03: read-back / byte image / validation");
         }
     });
 }
@@ -335,9 +335,9 @@ fn c15_pustruct_new_in_place() {
         let need = 4 + 2 * k;
         c15_outcome!(r, off, len, need);
         if let Ok(v) = r {
-            assert!(u16::from(v.a) == a);
-            assert!(v.b.len() == k && v.b.capacity() == (len - 4) / 2);
-            assert!(v.size() == need);
+            assert!(u16::from(v.a) == a, "C03: read-back / byte image / validation");
+            assert!(v.b.len() == k && v.b.capacity() == (len - 4) / 2, "C03: read-back / byte image / validation");
+            assert!(v.size() == need, "C03: read-back / byte image / validation");
             let s = v.b.as_slice();
             let img = v.as_bytes();
             assert!(img[0] == a.to_le_bytes()[0] && img[1] == a.to_le_bytes()[1], "C03: le::U16 field is not little-endian");
@@ -345,12 +345,12 @@ fn c15_pustruct_new_in_place() {
             let mut i = 0;
             while i < 4 {
                 if i < k {
-                    assert!(u16::from(s[i]) == x[i]);
+                    assert!(u16::from(s[i]) == x[i], "C03: read-back / byte image / validation");
                     assert!(img[4 + 2 * i] == x[i].to_be_bytes()[0] && img[5 + 2 * i] == x[i].to_be_bytes()[1], "C03: be::U16 element is not big-endian");
                 }
                 i += 1;
             }
-            assert!(PUStruct::validate(b).is_ok());
+            assert!(PUStruct::validate(b).is_ok(), "C03: read-back / byte image / validation");
         }
     });
 }
@@ -370,16 +370,16 @@ fn c15_uenum_ab_new_in_place() {
         let need = if is_b { 8 } else { 4 };
         c15_outcome!(r, off, len, need);
         if let Ok(v) = r {
-            assert!(v.size() == need);
+            assert!(v.size() == need, "C03: read-back / byte image / validation");
             match v.as_ref() {
-                UEnumRef::A => assert!(!is_b),
-                UEnumRef::B(p, q) => assert!(is_b && *p == x && *q == y),
+                UEnumRef::A => assert!(!is_b, "C03: read-back / byte image / validation"),
+                UEnumRef::B(p, q) => assert!(is_b && *p == x && *q == y, "C03: read-back / byte image / validation"),
                 _ => panic!("C03: wrong variant read back"),
             }
             let img = v.as_bytes();
             assert!(img[0] == bool_byte(is_b), "C03: tag byte is not the variant index");
-            if is_b { assert!(img[4] == x && rd_u16(img, 6) == y); }
-            assert!(UEnum::validate(b).is_ok());
+            if is_b { assert!(img[4] == x && rd_u16(img, 6) == y, "C03: read-back / byte image / validation"); }
+            assert!(UEnum::validate(b).is_ok(), "C03: read-back / byte image / validation");
         }
     });
 }
@@ -404,21 +404,21 @@ fn c15_uenum_c_new_in_place() {
         if let Ok(v) = r {
             assert!(v.size() == need, "C03/C05: size() is not the documented size of the content");
             let img = v.as_bytes();
-            assert!(img[0] == 2 && rd_u32(img, 4) == offset && rd_u16(img, 8) as usize == k);
+            assert!(img[0] == 2 && rd_u32(img, 4) == offset && rd_u16(img, 8) as usize == k, "C03: read-back / byte image / validation");
             match v.as_ref() {
                 UEnumRef::C { offset: o, bytes } => {
-                    assert!(*o == offset && bytes.len() == k);
-                    assert!(bytes.capacity() == floor_to(len, 4) - 10);
+                    assert!(*o == offset && bytes.len() == k, "C03: read-back / byte image / validation");
+                    assert!(bytes.capacity() == floor_to(len, 4) - 10, "C03: read-back / byte image / validation");
                     let s = bytes.as_slice();
                     let mut i = 0;
                     while i < 5 {
-                        if i < k { assert!(s[i] == e[i] && img[10 + i] == e[i]); }
+                        if i < k { assert!(s[i] == e[i] && img[10 + i] == e[i], "C03: read-back / byte image / validation"); }
                         i += 1;
                     }
                 }
                 _ => panic!("C03: wrong variant read back"),
             }
-            assert!(UEnum::validate(b).is_ok());
+            assert!(UEnum::validate(b).is_ok(), "C03: read-back / byte image / validation");
         }
     });
 }
@@ -449,31 +449,31 @@ fn c15_puenum_new_in_place() {
         let need = match which { 0 => 1, 1 => 4, _ => 5 + 2 * k };
         c15_outcome!(r, off, len, need);
         if let Ok(v) = r {
-            assert!(v.size() == need);
+            assert!(v.size() == need, "C03: read-back / byte image / validation");
             let img = v.as_bytes();
-            assert!(img[0] == which);
+            assert!(img[0] == which, "C03: read-back / byte image / validation");
             match v.as_ref() {
-                PUEnumRef::A => assert!(which == 0),
+                PUEnumRef::A => assert!(which == 0, "C03: read-back / byte image / validation"),
                 PUEnumRef::B(p, q) => {
-                    assert!(which == 1 && u16::from(*p) == x && *q == y);
-                    assert!(img[1] == x.to_be_bytes()[0] && img[2] == x.to_be_bytes()[1] && img[3] == y);
+                    assert!(which == 1 && u16::from(*p) == x && *q == y, "C03: read-back / byte image / validation");
+                    assert!(img[1] == x.to_be_bytes()[0] && img[2] == x.to_be_bytes()[1] && img[3] == y, "C03: read-back / byte image / validation");
                 }
                 PUEnumRef::C(s) => {
-                    assert!(which == 2 && u16::from(s.a) == a && s.b.len() == k);
-                    assert!(img[1] == a.to_le_bytes()[0] && img[2] == a.to_le_bytes()[1]);
-                    assert!(img[3] == k as u8 && img[4] == 0);
+                    assert!(which == 2 && u16::from(s.a) == a && s.b.len() == k, "C03: read-back / byte image / validation");
+                    assert!(img[1] == a.to_le_bytes()[0] && img[2] == a.to_le_bytes()[1], "C03: read-back / byte image / validation");
+                    assert!(img[3] == k as u8 && img[4] == 0, "C03: read-back / byte image / validation");
                     let sl = s.b.as_slice();
                     let mut i = 0;
                     while i < 3 {
                         if i < k {
-                            assert!(u16::from(sl[i]) == w[i]);
-                            assert!(img[5 + 2 * i] == w[i].to_be_bytes()[0] && img[6 + 2 * i] == w[i].to_be_bytes()[1]);
+                            assert!(u16::from(sl[i]) == w[i], "C03: read-back / byte image / validation");
+                            assert!(img[5 + 2 * i] == w[i].to_be_bytes()[0] && img[6 + 2 * i] == w[i].to_be_bytes()[1], "C03: read-back / byte image / validation");
                         }
                         i += 1;
                     }
                 }
             }
-            assert!(PUEnum::validate(b).is_ok());
+            assert!(PUEnum::validate(b).is_ok(), "C03: read-back / byte image / validation");
         }
     });
 }
@@ -493,17 +493,17 @@ fn c15_vec_u8_u16_from_array() {
         let need = ceil_to(2 + k, 2);
         c15_outcome!(r, off, len, need);
         if let Ok(v) = r {
-            assert!(v.len() == k && v.capacity() == floor_to(len - 2, 2));
-            assert!(v.size() == need);
+            assert!(v.len() == k && v.capacity() == floor_to(len - 2, 2), "C03: read-back / byte image / validation");
+            assert!(v.size() == need, "C03: read-back / byte image / validation");
             let s = v.as_slice();
             let img = v.as_bytes();
-            assert!(rd_u16(img, 0) as usize == k);
+            assert!(rd_u16(img, 0) as usize == k, "C03: read-back / byte image / validation");
             let mut i = 0;
             while i < 5 {
-                if i < k { assert!(s[i] == e[i] && img[2 + i] == e[i]); }
+                if i < k { assert!(s[i] == e[i] && img[2 + i] == e[i], "C03: read-back / byte image / validation"); }
                 i += 1;
             }
-            assert!(FlatVec::<u8, u16>::validate(b).is_ok());
+            assert!(FlatVec::<u8, u16>::validate(b).is_ok(), "C03: read-back / byte image / validation");
         }
     });
 }
@@ -520,17 +520,17 @@ fn c15_vec_u32_u16_from_iterator() {
         let need = 4 + 4 * k;
         c15_outcome!(r, off, len, need);
         if let Ok(v) = r {
-            assert!(v.len() == k && v.capacity() == (floor_to(len, 4) - 4) / 4);
-            assert!(v.size() == need);
+            assert!(v.len() == k && v.capacity() == (floor_to(len, 4) - 4) / 4, "C03: read-back / byte image / validation");
+            assert!(v.size() == need, "C03: read-back / byte image / validation");
             let s = v.as_slice();
             let img = v.as_bytes();
-            assert!(rd_u16(img, 0) as usize == k);
+            assert!(rd_u16(img, 0) as usize == k, "C03: read-back / byte image / validation");
             let mut i = 0;
             while i < 3 {
-                if i < k { assert!(s[i] == e[i] && rd_u32(img, 4 + 4 * i) == e[i]); }
+                if i < k { assert!(s[i] == e[i] && rd_u32(img, 4 + 4 * i) == e[i], "C03: read-back / byte image / validation"); }
                 i += 1;
             }
-            assert!(FlatVec::<u32, u16>::validate(b).is_ok());
+            assert!(FlatVec::<u32, u16>::validate(b).is_ok(), "C03: read-back / byte image / validation");
         }
     });
 }
@@ -548,18 +548,18 @@ fn c15_string_from_str() {
         let need = ceil_to(2 + n, 2);
         c15_outcome!(r, off, len, need);
         if let Ok(v) = r {
-            assert!(v.len() == n && v.capacity() == floor_to(len - 2, 2));
-            assert!(v.size() == need);
+            assert!(v.len() == n && v.capacity() == floor_to(len - 2, 2), "C03: read-back / byte image / validation");
+            assert!(v.size() == need, "C03: read-back / byte image / validation");
             let rs = v.as_str().as_bytes();
             let img = v.as_bytes();
-            assert!(rd_u16(img, 0) as usize == n);
-            assert!(rs.len() == n);
+            assert!(rd_u16(img, 0) as usize == n, "C03: read-back / byte image / validation");
+            assert!(rs.len() == n, "C03: read-back / byte image / validation");
             let mut i = 0;
             while i < 3 {
-                if i < n { assert!(rs[i] == e[i] && img[2 + i] == e[i]); }
+                if i < n { assert!(rs[i] == e[i] && img[2 + i] == e[i], "C03: read-back / byte image / validation"); }
                 i += 1;
             }
-            assert!(FlatString::<u16>::validate(b).is_ok());
+            assert!(FlatString::<u16>::validate(b).is_ok(), "C03: read-back / byte image / validation");
         }
     });
 }
@@ -571,25 +571,25 @@ fn c03_string_literals() {
     let mut back = Backing::<8>(kani::any());
     {
         let v = FlatString::<u16>::new_in_place(&mut back.0[..6], flatty::string::FromStr("ab")).unwrap();
-        assert!(v.as_str() == "ab" && v.len() == 2 && v.size() == 4);
+        assert!(v.as_str() == "ab" && v.len() == 2 && v.size() == 4, "C03: read-back / byte image / validation");
     }
-    assert!(rd_u16(&back.0, 0) == 2 && back.0[2] == b'a' && back.0[3] == b'b');
-    assert!(FlatString::<u16>::validate(&back.0[..6]).is_ok());
+    assert!(rd_u16(&back.0, 0) == 2 && back.0[2] == b'a' && back.0[3] == b'b', "C03: read-back / byte image / validation");
+    assert!(FlatString::<u16>::validate(&back.0[..6]).is_ok(), "C03: read-back / byte image / validation");
     let mut back = Backing::<8>(kani::any());
     {
         let v = FlatString::<u16>::new_in_place(&mut back.0[..6], flatty::string::flat_string!("")).unwrap();
-        assert!(v.as_str() == "" && v.len() == 0 && v.size() == 2);
+        assert!(v.as_str() == "" && v.len() == 0 && v.size() == 2, "C03: read-back / byte image / validation");
     }
-    assert!(rd_u16(&back.0, 0) == 0);
+    assert!(rd_u16(&back.0, 0) == 0, "C03: read-back / byte image / validation");
     let mut back = Backing::<8>(kani::any());
     {
         let v = FlatString::<u16>::new_in_place(&mut back.0[..6], flatty::string::flat_string!("\u{e9}!")).unwrap();
-        assert!(v.as_str() == "\u{e9}!" && v.len() == 3 && v.size() == 6);
+        assert!(v.as_str() == "\u{e9}!" && v.len() == 3 && v.size() == 6, "C03: read-back / byte image / validation");
     }
-    assert!(rd_u16(&back.0, 0) == 3 && back.0[2] == 0xc3 && back.0[3] == 0xa9 && back.0[4] == b'!');
+    assert!(rd_u16(&back.0, 0) == 3 && back.0[2] == 0xc3 && back.0[3] == 0xa9 && back.0[4] == b'!', "C03: read-back / byte image / validation");
     // too long for the buffer
     let mut back = Backing::<8>(kani::any());
-    assert!(is_kind(&FlatString::<u16>::new_in_place(&mut back.0[..4], flatty::string::FromStr("abc")), ErrorKind::InsufficientSize));
+    assert!(is_kind(&FlatString::<u16>::new_in_place(&mut back.0[..4], flatty::string::FromStr("abc")), ErrorKind::InsufficientSize), "C03: read-back / byte image / validation");
 }
 
 /// FlexVec<u16,u16> (sized items, align 2): chain of [next: u16][item: u16]; the last item's slot holds u16::MAX,
@@ -606,16 +606,16 @@ fn c15_flex_u16_from_iterator() {
         c15_outcome!(r, off, len, need);
         if let Ok(v) = r {
             assert!(v.len() == m, "C03: number of items read back differs");
-            assert!(v.is_empty() == (m == 0));
-            assert!(v.size() == need);
+            assert!(v.is_empty() == (m == 0), "C03: read-back / byte image / validation");
+            assert!(v.size() == need, "C03: read-back / byte image / validation");
             {
                 let mut it = v.iter();
                 let mut i = 0;
                 while i < 3 {
-                    if i < m { assert!(*it.next().unwrap() == e[i]); }
+                    if i < m { assert!(*it.next().unwrap() == e[i], "C03: read-back / byte image / validation"); }
                     i += 1;
                 }
-                assert!(it.next().is_none());
+                assert!(it.next().is_none(), "C03: read-back / byte image / validation");
             }
             let img = v.as_bytes();
             let mut i = 0;
@@ -623,12 +623,12 @@ fn c15_flex_u16_from_iterator() {
                 if i < m {
                     let slot = rd_u16(img, 4 * i);
                     if i + 1 < m { assert!(slot == 4, "C03: offset slot of an inner item"); } else { assert!(slot == u16::MAX, "C03: offset slot of the last item"); }
-                    assert!(rd_u16(img, 4 * i + 2) == e[i]);
+                    assert!(rd_u16(img, 4 * i + 2) == e[i], "C03: read-back / byte image / validation");
                 }
                 i += 1;
             }
-            if m == 0 { assert!(rd_u16(img, 0) == 0); }
-            assert!(FlexVec::<u16, u16>::validate(b).is_ok());
+            if m == 0 { assert!(rd_u16(img, 0) == 0, "C03: read-back / byte image / validation"); }
+            assert!(FlexVec::<u16, u16>::validate(b).is_ok(), "C03: read-back / byte image / validation");
         }
     });
 }
@@ -637,9 +637,14 @@ fn c15_flex_u16_from_iterator() {
 /// [next][len][e..][next][len][e..]; inner items: next = 1 + 1 + len, last item: next = 255.
 /// Two items flat_vec![x0, x1], flat_vec![y0, y1] need 8 bytes; one item needs 4; N = 10.
 #[kani::proof]
-#[kani::unwind(28)]
+#[kani::unwind(12)]
 fn c15_flex_unsized_items() {
-    with_buf::<26>(10, 1, |b, len, off| {
+    let mut back = Backing::<10>(kani::any());
+    let orig = back.0;
+    let len = any_fill(9);
+    let off = 0;
+    {
+        let b = &mut back.0[..len];
         let (x, y): ([u8; 2], [u8; 2]) = (any_arr(), any_arr());
         let m = any_fill(2);
         let items = [flat_vec![x[0], x[1]], flat_vec![y[0], y[1]]];
@@ -647,32 +652,37 @@ fn c15_flex_unsized_items() {
         let need = if m == 0 { 1 } else { 4 * m };
         c15_outcome!(r, off, len, need);
         if let Ok(v) = r {
-            assert!(v.len() == m);
-            assert!(v.size() == need);
+            assert!(v.len() == m, "C03: read-back / byte image / validation");
+            assert!(v.size() == need, "C03: read-back / byte image / validation");
             {
                 let mut it = v.iter();
                 if m >= 1 {
                     let i0 = it.next().unwrap();
-                    assert!(i0.len() == 2 && i0.as_slice()[0] == x[0] && i0.as_slice()[1] == x[1]);
+                    assert!(i0.len() == 2 && i0.as_slice()[0] == x[0] && i0.as_slice()[1] == x[1], "C03: read-back / byte image / validation");
                 }
                 if m >= 2 {
                     let i1 = it.next().unwrap();
-                    assert!(i1.len() == 2 && i1.as_slice()[0] == y[0] && i1.as_slice()[1] == y[1]);
+                    assert!(i1.len() == 2 && i1.as_slice()[0] == y[0] && i1.as_slice()[1] == y[1], "C03: read-back / byte image / validation");
                 }
-                assert!(it.next().is_none());
+                assert!(it.next().is_none(), "C03: read-back / byte image / validation");
             }
             let img = v.as_bytes();
             match m {
-                0 => assert!(img[0] == 0),
-                1 => assert!(img[0] == 255 && img[1] == 2 && img[2] == x[0] && img[3] == x[1]),
+                0 => assert!(img[0] == 0, "C03: read-back / byte image / validation"),
+                1 => assert!(img[0] == 255 && img[1] == 2 && img[2] == x[0] && img[3] == x[1], "C03: read-back / byte image / validation"),
                 _ => {
-                    assert!(img[0] == 4 && img[1] == 2 && img[2] == x[0] && img[3] == x[1]);
-                    assert!(img[4] == 255 && img[5] == 2 && img[6] == y[0] && img[7] == y[1]);
+                    assert!(img[0] == 4 && img[1] == 2 && img[2] == x[0] && img[3] == x[1], "C03: read-back / byte image / validation");
+                    assert!(img[4] == 255 && img[5] == 2 && img[6] == y[0] && img[7] == y[1], "C03: read-back / byte image / validation");
                 }
             }
-            assert!(FlexVec::<FlatVec<u8, u8>, u8>::validate(b).is_ok());
+            assert!(FlexVec::<FlatVec<u8, u8>, u8>::validate(b).is_ok(), "C03: read-back / byte image / validation");
         }
-    });
+    }
+    let mut i = 0;
+    while i < 10 {
+        if i >= len { assert!(back.0[i] == orig[i], "C14: a byte outside the slice handed to the library was modified"); }
+        i += 1;
+    }
 }
 
 /// FlatWrap::new_in_place with the pointer type `&mut [u8]` (TrustedRef + AsRef + AsMut): same three-way outcome as
@@ -686,14 +696,14 @@ fn c15_wrap_new_in_place() {
         let r = FlatWrap::<UStruct, &mut [u8]>::new_in_place(b, UStructInit { a, b: bb, c: flatty::vec::FromArray(e) });
         c15_outcome!(r, off, len, 10);
         if let Ok(mut w) = r {
-            assert!(w.a == a && w.b == bb && w.c.len() == 3 && w.size() == 10);
-            assert!(w.c.as_slice()[0] == e[0] && w.c.as_slice()[1] == e[1] && w.c.as_slice()[2] == e[2]);
+            assert!(w.a == a && w.b == bb && w.c.len() == 3 && w.size() == 10, "C03: read-back / byte image / validation");
+            assert!(w.c.as_slice()[0] == e[0] && w.c.as_slice()[1] == e[1] && w.c.as_slice()[2] == e[2], "C03: read-back / byte image / validation");
             // DerefMut maps the same bytes
             w.a = !a;
             let p = w.into_inner();
-            assert!(p.len() == len);
-            assert!(p[0] == !a && rd_u16(p, 2) == bb && rd_u16(p, 4) == 3 && p[6] == e[0] && p[7] == e[1] && p[8] == e[2]);
-            assert!(UStruct::validate(p).is_ok());
+            assert!(p.len() == len, "C03: read-back / byte image / validation");
+            assert!(p[0] == !a && rd_u16(p, 2) == bb && rd_u16(p, 4) == 3 && p[6] == e[0] && p[7] == e[1] && p[8] == e[2], "C03: read-back / byte image / validation");
+            assert!(UStruct::validate(p).is_ok(), "C03: read-back / byte image / validation");
         }
     });
 }
@@ -706,9 +716,9 @@ fn c15_wrap_default_in_place() {
         let r = FlatWrap::<UEnum, &mut [u8]>::default_in_place(b);
         c15_outcome!(r, off, len, 4);
         if let Ok(w) = r {
-            assert!(matches!(w.as_ref(), UEnumRef::A) && w.size() == 4);
+            assert!(matches!(w.as_ref(), UEnumRef::A) && w.size() == 4, "C03: read-back / byte image / validation");
             let p = w.into_inner();
-            assert!(p[0] == 0 && UEnum::validate(p).is_ok());
+            assert!(p[0] == 0 && UEnum::validate(p).is_ok(), "C03: read-back / byte image / validation");
         }
     });
 }
@@ -727,13 +737,13 @@ fn c03_exact_ustruct() {
     let (a, bb): (u8, u16) = (kani::any(), kani::any());
     let e: [u8; 4] = any_arr();
     let v = UStruct::new_in_place(b, UStructInit { a, b: bb, c: flat_vec![e[0], e[1], e[2], e[3]] }).unwrap();
-    assert!(v.a == a && v.b == bb && v.c.len() == 4 && v.c.is_full() && v.size() == 10);
-    assert!(v.c.push(0).is_err());
-    assert!(b[0] == a && rd_u16(b, 2) == bb && rd_u16(b, 4) == 4 && b[6] == e[0] && b[9] == e[3]);
-    assert!(UStruct::validate(b).is_ok());
+    assert!(v.a == a && v.b == bb && v.c.len() == 4 && v.c.is_full() && v.size() == 10, "C03: read-back / byte image / validation");
+    assert!(v.c.push(0).is_err(), "C03: read-back / byte image / validation");
+    assert!(b[0] == a && rd_u16(b, 2) == bb && rd_u16(b, 4) == 4 && b[6] == e[0] && b[9] == e[3], "C03: read-back / byte image / validation");
+    assert!(UStruct::validate(b).is_ok(), "C03: read-back / byte image / validation");
     // one byte less: refused, nothing past the 9 bytes touched
     let b9 = sym_slice(9, 2, 0, 11);
-    assert!(is_kind(&UStruct::new_in_place(b9, UStructInit { a, b: bb, c: flat_vec![e[0], e[1], e[2], e[3]] }), ErrorKind::InsufficientSize));
+    assert!(is_kind(&UStruct::new_in_place(b9, UStructInit { a, b: bb, c: flat_vec![e[0], e[1], e[2], e[3]] }), ErrorKind::InsufficientSize), "C03: read-back / byte image / validation");
 }
 
 /// UEnum::C exactly full (len 12 = 4 + 4 + 2 + 2), and with 3 spare bytes below the next multiple of the alignment.
@@ -745,18 +755,18 @@ fn c03_exact_uenum() {
     let offset: u32 = kani::any();
     let e: [u8; 2] = any_arr();
     let v = UEnum::new_in_place(b, UEnumInitC { offset, bytes: flat_vec![e[0], e[1]] }).unwrap();
-    assert!(v.size() == 12);
+    assert!(v.size() == 12, "C03: read-back / byte image / validation");
     match v.as_mut() {
-        UEnumMut::C { offset: o, bytes } => { assert!(*o == offset && bytes.len() == 2 && bytes.is_full()); assert!(bytes.push(1).is_err()); }
+        UEnumMut::C { offset: o, bytes } => { assert!(*o == offset && bytes.len() == 2 && bytes.is_full(), "C03: read-back / byte image / validation"); assert!(bytes.push(1).is_err(), "C03: read-back / byte image / validation"); }
         _ => panic!(),
     }
-    assert!(b[0] == 2 && rd_u32(b, 4) == offset && rd_u16(b, 8) == 2 && b[10] == e[0] && b[11] == e[1]);
-    assert!(UEnum::validate(b).is_ok());
+    assert!(b[0] == 2 && rd_u32(b, 4) == offset && rd_u16(b, 8) == 2 && b[10] == e[0] && b[11] == e[1], "C03: read-back / byte image / validation");
+    assert!(UEnum::validate(b).is_ok(), "C03: read-back / byte image / validation");
     let b8 = sym_slice(8, 4, 0, 15);
-    assert!(is_kind(&UEnum::new_in_place(b8, UEnumInitC { offset, bytes: flat_vec![] }), ErrorKind::InsufficientSize));
+    assert!(is_kind(&UEnum::new_in_place(b8, UEnumInitC { offset, bytes: flat_vec![] }), ErrorKind::InsufficientSize), "C03: read-back / byte image / validation");
     let b4 = sym_slice(4, 4, 0, 15);
-    assert!(is_kind(&UEnum::new_in_place(b4, UEnumInitB(1, 2)), ErrorKind::InsufficientSize));
-    assert!(UEnum::new_in_place(b4, UEnumInitA).is_ok());
+    assert!(is_kind(&UEnum::new_in_place(b4, UEnumInitB(1, 2)), ErrorKind::InsufficientSize), "C03: read-back / byte image / validation");
+    assert!(UEnum::new_in_place(b4, UEnumInitA).is_ok(), "C03: read-back / byte image / validation");
 }
 
 /// empty slice at an aligned address: every constructor refuses with InsufficientSize, none touches memory
@@ -764,16 +774,16 @@ fn c03_exact_uenum() {
 #[kani::unwind(4)]
 fn c15_empty_slice() {
     let b = sym_slice(0, 8, 0, 0);
-    assert!(is_kind(&u8::default_in_place(b), ErrorKind::InsufficientSize));
-    assert!(is_kind(&SStruct::default_in_place(b), ErrorKind::InsufficientSize));
-    assert!(is_kind(&UStruct::default_in_place(b), ErrorKind::InsufficientSize));
-    assert!(is_kind(&UPad::default_in_place(b), ErrorKind::InsufficientSize));
-    assert!(is_kind(&UEnum::default_in_place(b), ErrorKind::InsufficientSize));
-    assert!(is_kind(&PUEnum::default_in_place(b), ErrorKind::InsufficientSize));
-    assert!(is_kind(&FlatVec::<u8, u16>::default_in_place(b), ErrorKind::InsufficientSize));
-    assert!(is_kind(&FlatString::<u16>::default_in_place(b), ErrorKind::InsufficientSize));
-    assert!(is_kind(&FlexVec::<u16, u16>::default_in_place(b), ErrorKind::InsufficientSize));
-    assert!(is_kind(&FlatWrap::<UEnum, &mut [u8]>::default_in_place(b), ErrorKind::InsufficientSize));
+    assert!(is_kind(&u8::default_in_place(b), ErrorKind::InsufficientSize), "C03: read-back / byte image / validation");
+    assert!(is_kind(&SStruct::default_in_place(b), ErrorKind::InsufficientSize), "C03: read-back / byte image / validation");
+    assert!(is_kind(&UStruct::default_in_place(b), ErrorKind::InsufficientSize), "C03: read-back / byte image / validation");
+    assert!(is_kind(&UPad::default_in_place(b), ErrorKind::InsufficientSize), "C03: read-back / byte image / validation");
+    assert!(is_kind(&UEnum::default_in_place(b), ErrorKind::InsufficientSize), "C03: read-back / byte image / validation");
+    assert!(is_kind(&PUEnum::default_in_place(b), ErrorKind::InsufficientSize), "C03: read-back / byte image / validation");
+    assert!(is_kind(&FlatVec::<u8, u16>::default_in_place(b), ErrorKind::InsufficientSize), "C03: read-back / byte image / validation");
+    assert!(is_kind(&FlatString::<u16>::default_in_place(b), ErrorKind::InsufficientSize), "C03: read-back / byte image / validation");
+    assert!(is_kind(&FlexVec::<u16, u16>::default_in_place(b), ErrorKind::InsufficientSize), "C03: read-back / byte image / validation");
+    assert!(is_kind(&FlatWrap::<UEnum, &mut [u8]>::default_in_place(b), ErrorKind::InsufficientSize), "C03: read-back / byte image / validation");
 }
 
 // ------------------------------------------------------------------------------------------------------------------
@@ -789,15 +799,15 @@ fn c20_primitives() {
             let mut back = Backing::<16>(kani::any());
             {
                 let v = <$T>::default_in_place(&mut back.0[..]).unwrap();
-                assert!(*v == $zero && *v == <$T as Default>::default());
-                assert!(v.size() == $size);
+                assert!(*v == $zero && *v == <$T as Default>::default(), "C20: default state / bytes / validation");
+                assert!(v.size() == $size, "C20: default state / bytes / validation");
             }
             let mut i = 0;
             while i < $size {
-                assert!(back.0[i] == 0);
+                assert!(back.0[i] == 0, "C20: default state / bytes / validation");
                 i += 1;
             }
-            assert!(<$T>::validate(&back.0[..]).is_ok());
+            assert!(<$T>::validate(&back.0[..]).is_ok(), "C20: default state / bytes / validation");
         }};
     }
     prim!(u8, 1, 0);
@@ -824,33 +834,33 @@ macro_rules! c20_sized {
                 c15_outcome!(r, off, len, $size);
                 if let Ok($v) = r {
                     assert!(*$v == <$T as Default>::default(), "C20: not equal to Default::default()");
-                    assert!($v.size() == $size);
+                    assert!($v.size() == $size, "C20: default state / bytes / validation");
                     let $img = $v.as_bytes();
-                    assert!($img.len() == $size);
+                    assert!($img.len() == $size, "C20: default state / bytes / validation");
                     $extra;
-                    assert!(<$T>::validate(b).is_ok());
+                    assert!(<$T>::validate(b).is_ok(), "C20: default state / bytes / validation");
                 }
             });
         }
     };
 }
 c20_sized!(c20_sstruct, SStruct, 8, 24, 25, 48, 50, |v, img| {
-    assert!(v.a == 0 && v.b == 0 && v.c == 0 && v.d == [0, 0]);
-    assert!(img[0] == 0 && rd_u16(img, 2) == 0 && rd_u32(img, 4) == 0);
+    assert!(v.a == 0 && v.b == 0 && v.c == 0 && v.d == [0, 0], "C20: default state / bytes / validation");
+    assert!(img[0] == 0 && rd_u16(img, 2) == 0 && rd_u32(img, 4) == 0, "C20: default state / bytes / validation");
     let mut i = 8;
-    while i < 24 { assert!(img[i] == 0); i += 1; }
+    while i < 24 { assert!(img[i] == 0, "C20: default state / bytes / validation"); i += 1; }
 });
 c20_sized!(c20_sbool, SBool, 4, 12, 13, 32, 34, |v, img| {
-    assert!(v.x == 0 && v.flag == Bool::False && v.arr == [Bool::False, Bool::False] && v.y == 0);
-    assert!(img[0] == 0 && img[1] == 0 && img[2] == 0 && img[3] == 0 && img[4] == 0 && rd_u32(img, 8) == 0);
+    assert!(v.x == 0 && v.flag == Bool::False && v.arr == [Bool::False, Bool::False] && v.y == 0, "C20: default state / bytes / validation");
+    assert!(img[0] == 0 && img[1] == 0 && img[2] == 0 && img[3] == 0 && img[4] == 0 && rd_u32(img, 8) == 0, "C20: default state / bytes / validation");
 });
 c20_sized!(c20_senum, SEnum, 4, 8, 9, 24, 26, |v, img| {
     assert!(matches!(*v, SEnum::A), "C20: not the #[default] variant");
-    assert!(img[0] == 0);
+    assert!(img[0] == 0, "C20: default state / bytes / validation");
 });
 c20_sized!(c20_cenum, CEnum, 1, 1, 2, 16, 18, |v, img| {
     assert!(matches!(*v, CEnum::A), "C20: not the #[default] variant");
-    assert!(img[0] == 0);
+    assert!(img[0] == 0, "C20: default state / bytes / validation");
 });
 
 /// PStruct has default = true but no PartialEq: compare field by field
@@ -862,13 +872,13 @@ fn c20_pstruct() {
         c15_outcome!(r, off, len, 8);
         if let Ok(v) = r {
             let d = PStruct::default();
-            assert!(v.a == 0 && u16::from(v.b) == 0 && u32::from(v.c) == 0 && v.f == Bool::False);
+            assert!(v.a == 0 && u16::from(v.b) == 0 && u32::from(v.c) == 0 && v.f == Bool::False, "C20: default state / bytes / validation");
             assert!(v.a == d.a && v.b == d.b && v.c == d.c && v.f == d.f, "C20: not equal to Default::default()");
-            assert!(v.size() == 8);
+            assert!(v.size() == 8, "C20: default state / bytes / validation");
             let img = v.as_bytes();
             let mut i = 0;
-            while i < 8 { assert!(img[i] == 0); i += 1; }
-            assert!(PStruct::validate(b).is_ok());
+            while i < 8 { assert!(img[i] == 0, "C20: default state / bytes / validation"); i += 1; }
+            assert!(PStruct::validate(b).is_ok(), "C20: default state / bytes / validation");
         }
     });
 }
@@ -881,12 +891,12 @@ fn c20_ustruct() {
         let r = UStruct::default_in_place(b);
         c15_outcome!(r, off, len, 6);
         if let Ok(v) = r {
-            assert!(v.a == 0 && v.b == 0 && v.c.len() == 0 && v.c.is_empty());
-            assert!(v.c.capacity() == floor_to(len, 2) - 6);
+            assert!(v.a == 0 && v.b == 0 && v.c.len() == 0 && v.c.is_empty(), "C20: default state / bytes / validation");
+            assert!(v.c.capacity() == floor_to(len, 2) - 6, "C20: default state / bytes / validation");
             assert!(v.size() == 6 && v.size() == <UStruct as FlatBase>::MIN_SIZE, "C20: size() is not minimal");
             let img = v.as_bytes();
-            assert!(img[0] == 0 && rd_u16(img, 2) == 0 && rd_u16(img, 4) == 0);
-            assert!(UStruct::validate(b).is_ok());
+            assert!(img[0] == 0 && rd_u16(img, 2) == 0 && rd_u16(img, 4) == 0, "C20: default state / bytes / validation");
+            assert!(UStruct::validate(b).is_ok(), "C20: default state / bytes / validation");
         }
     });
 }
@@ -899,12 +909,12 @@ fn c20_upad() {
         let r = UPad::default_in_place(b);
         c15_outcome!(r, off, len, 16);
         if let Ok(v) = r {
-            assert!(v.a == 0 && v.v.len() == 0);
+            assert!(v.a == 0 && v.v.len() == 0, "C20: default state / bytes / validation");
             assert!(v.size() == 16 && v.size() == <UPad as FlatBase>::MIN_SIZE, "C20: size() is not minimal");
             let img = v.as_bytes();
             let mut i = 0;
-            while i < 10 { assert!(img[i] == 0); i += 1; }
-            assert!(UPad::validate(b).is_ok());
+            while i < 10 { assert!(img[i] == 0, "C20: default state / bytes / validation"); i += 1; }
+            assert!(UPad::validate(b).is_ok(), "C20: default state / bytes / validation");
         }
     });
 }
@@ -919,8 +929,8 @@ fn c20_uenum() {
         if let Ok(v) = r {
             assert!(matches!(v.as_ref(), UEnumRef::A), "C20: not the #[default] variant");
             assert!(v.size() == 4 && v.size() == <UEnum as FlatBase>::MIN_SIZE, "C20: size() is not minimal");
-            assert!(v.as_bytes()[0] == 0);
-            assert!(UEnum::validate(b).is_ok());
+            assert!(v.as_bytes()[0] == 0, "C20: default state / bytes / validation");
+            assert!(UEnum::validate(b).is_ok(), "C20: default state / bytes / validation");
         }
     });
 }
@@ -933,11 +943,11 @@ fn c20_uboolvec() {
         let r = UBoolVec::default_in_place(b);
         c15_outcome!(r, off, len, 2);
         if let Ok(v) = r {
-            assert!(v.n == 0 && v.flags.len() == 0 && v.flags.capacity() == len - 2);
+            assert!(v.n == 0 && v.flags.len() == 0 && v.flags.capacity() == len - 2, "C20: default state / bytes / validation");
             assert!(v.size() == 2 && v.size() == <UBoolVec as FlatBase>::MIN_SIZE, "C20: size() is not minimal");
             let img = v.as_bytes();
-            assert!(img[0] == 0 && img[1] == 0);
-            assert!(UBoolVec::validate(b).is_ok());
+            assert!(img[0] == 0 && img[1] == 0, "C20: default state / bytes / validation");
+            assert!(UBoolVec::validate(b).is_ok(), "C20: default state / bytes / validation");
         }
     });
 }
@@ -950,11 +960,11 @@ fn c20_pustruct_puenum() {
         let r = PUStruct::default_in_place(b);
         c15_outcome!(r, off, len, 4);
         if let Ok(v) = r {
-            assert!(u16::from(v.a) == 0 && v.b.len() == 0 && v.b.capacity() == (len - 4) / 2);
+            assert!(u16::from(v.a) == 0 && v.b.len() == 0 && v.b.capacity() == (len - 4) / 2, "C20: default state / bytes / validation");
             assert!(v.size() == 4 && v.size() == <PUStruct as FlatBase>::MIN_SIZE, "C20: size() is not minimal");
             let img = v.as_bytes();
-            assert!(img[0] == 0 && img[1] == 0 && img[2] == 0 && img[3] == 0);
-            assert!(PUStruct::validate(b).is_ok());
+            assert!(img[0] == 0 && img[1] == 0 && img[2] == 0 && img[3] == 0, "C20: default state / bytes / validation");
+            assert!(PUStruct::validate(b).is_ok(), "C20: default state / bytes / validation");
         }
     });
     with_buf::<20>(6, 1, |b, len, off| {
@@ -963,8 +973,8 @@ fn c20_pustruct_puenum() {
         if let Ok(v) = r {
             assert!(matches!(v.as_ref(), PUEnumRef::A), "C20: not the #[default] variant");
             assert!(v.size() == 1 && v.size() == <PUEnum as FlatBase>::MIN_SIZE, "C20: size() is not minimal");
-            assert!(v.as_bytes()[0] == 0);
-            assert!(PUEnum::validate(b).is_ok());
+            assert!(v.as_bytes()[0] == 0, "C20: default state / bytes / validation");
+            assert!(PUEnum::validate(b).is_ok(), "C20: default state / bytes / validation");
         }
     });
 }
@@ -977,40 +987,242 @@ fn c20_containers() {
         let r = FlatVec::<u32, u16>::default_in_place(b);
         c15_outcome!(r, off, len, 4);
         if let Ok(v) = r {
-            assert!(v.len() == 0 && v.is_empty() && v.capacity() == (floor_to(len, 4) - 4) / 4);
+            assert!(v.len() == 0 && v.is_empty() && v.capacity() == (floor_to(len, 4) - 4) / 4, "C20: default state / bytes / validation");
             assert!(v.size() == 4 && v.size() == <FlatVec<u32, u16> as FlatBase>::MIN_SIZE, "C20: size() is not minimal");
-            assert!(rd_u16(v.as_bytes(), 0) == 0);
-            assert!(FlatVec::<u32, u16>::validate(b).is_ok());
+            assert!(rd_u16(v.as_bytes(), 0) == 0, "C20: default state / bytes / validation");
+            assert!(FlatVec::<u32, u16>::validate(b).is_ok(), "C20: default state / bytes / validation");
         }
     });
     with_buf::<24>(5, 2, |b, len, off| {
         let r = FlatString::<u16>::default_in_place(b);
         c15_outcome!(r, off, len, 2);
         if let Ok(v) = r {
-            assert!(v.len() == 0 && v.is_empty() && v.as_str() == "" && v.capacity() == floor_to(len - 2, 2));
+            assert!(v.len() == 0 && v.is_empty() && v.capacity() == floor_to(len - 2, 2), "C20: default state / bytes / validation");
             assert!(v.size() == 2 && v.size() == <FlatString<u16> as FlatBase>::MIN_SIZE, "C20: size() is not minimal");
-            assert!(rd_u16(v.as_bytes(), 0) == 0);
-            assert!(FlatString::<u16>::validate(b).is_ok());
+            assert!(rd_u16(v.as_bytes(), 0) == 0, "C20: default state / bytes / validation");
+            assert!(FlatString::<u16>::validate(b).is_ok(), "C20: default state / bytes / validation");
         }
     });
     with_buf::<24>(7, 2, |b, len, off| {
         let r = FlexVec::<u16, u16>::default_in_place(b);
         c15_outcome!(r, off, len, 2);
         if let Ok(v) = r {
-            assert!(v.len() == 0 && v.is_empty() && v.iter().next().is_none());
+            assert!(v.len() == 0 && v.is_empty() && v.iter().next().is_none(), "C20: default state / bytes / validation");
             assert!(v.size() == 2 && v.size() == <FlexVec<u16, u16> as FlatBase>::MIN_SIZE, "C20: size() is not minimal");
-            assert!(rd_u16(v.as_bytes(), 0) == 0);
-            assert!(FlexVec::<u16, u16>::validate(b).is_ok());
+            assert!(rd_u16(v.as_bytes(), 0) == 0, "C20: default state / bytes / validation");
+            assert!(FlexVec::<u16, u16>::validate(b).is_ok(), "C20: default state / bytes / validation");
         }
     });
     with_buf::<24>(4, 1, |b, len, off| {
         let r = FlexVec::<FlatVec<u8, u8>, u8>::default_in_place(b);
         c15_outcome!(r, off, len, 1);
         if let Ok(v) = r {
-            assert!(v.len() == 0 && v.is_empty());
+            assert!(v.len() == 0 && v.is_empty(), "C20: default state / bytes / validation");
             assert!(v.size() == 1, "C20: size() is not minimal");
-            assert!(v.as_bytes()[0] == 0);
-            assert!(FlexVec::<FlatVec<u8, u8>, u8>::validate(b).is_ok());
+            assert!(v.as_bytes()[0] == 0, "C20: default state / bytes / validation");
+            assert!(FlexVec::<FlatVec<u8, u8>, u8>::validate(b).is_ok(), "C20: default state / bytes / validation");
         }
     });
 }
+
+// ------------------------------------------------------------------------------------------------------------------
+// C18: a failed assign_in_place leaves a valid value behind; "too little room" leaves it unchanged.
+// Start from ANY valid current value (symbolic bytes accepted by from_mut_bytes), symbolic replacement (every
+// variant / fill, including ones that do not fit).  Two harnesses per type: *_valid_after_err (bytes validate,
+// size() / deep read / second assignment do not panic) and *_unchanged_after_err (observable content unchanged).
+// The replacement emplacers used here can only fail for lack of room, so every Err is the "too little room" cause.
+// ------------------------------------------------------------------------------------------------------------------
+
+#[derive(PartialEq, Eq, Clone, Copy)]
+struct Obs { tag: u8, x: u32, y: u16, n: usize, e: [u8; 4] }
+
+fn observe_uenum(v: &UEnum) -> Obs {
+    let mut o = Obs { tag: 0, x: 0, y: 0, n: 0, e: [0; 4] };
+    match v.as_ref() {
+        UEnumRef::A => {}
+        UEnumRef::B(p, q) => { o.tag = 1; o.x = *p as u32; o.y = *q; }
+        UEnumRef::C { offset, bytes } => {
+            o.tag = 2; o.x = *offset; o.n = bytes.len();
+            let s = bytes.as_slice();
+            let mut i = 0;
+            while i < 4 { if i < s.len() { o.e[i] = s[i]; } i += 1; }
+        }
+    }
+    o
+}
+
+/// UEnum, N = 14 (capacity of C up to 4): every valid current value, replacement A / B / C with 0..=3 elements.
+fn c18_uenum(unchanged: bool) {
+    let mut back = Backing::<16>(kani::any());
+    let len = any_fill(14);
+    let cur = match UEnum::from_mut_bytes(&mut back.0[..len]) { Ok(v) => v, Err(_) => return };
+    let before = observe_uenum(cur);
+    let which: u8 = kani::any();
+    kani::assume(which < 3);
+    let (x, y, offset): (u8, u16, u32) = (kani::any(), kani::any(), kani::any());
+    let e: [u8; 3] = any_arr();
+    let k = any_fill(3);
+    let res = match which {
+        0 => cur.assign_in_place(UEnumInitA).map(|_| ()),
+        1 => cur.assign_in_place(UEnumInitB(x, y)).map(|_| ()),
+        _ => cur.assign_in_place(UEnumInitC { offset, bytes: flatty::vec::FromIterator(e.into_iter().take(k)) }).map(|_| ()),
+    };
+    let need = match which { 0 => 4, 1 => 8, _ => ceil_to(10 + k, 4) };
+    assert!(res.is_ok() == (need <= floor_to(len, 4)), "C18: assignment outcome differs from 'the replacement fits'");
+    match res {
+        Ok(()) => {
+            let after = observe_uenum(cur);
+            assert!(after.tag == which, "C03: assigned variant is not read back");
+            assert!(UEnum::validate(cur.as_bytes()).is_ok(), "C03: assigned value does not validate");
+        }
+        Err(err) => {
+            assert!(err.kind == ErrorKind::InsufficientSize, "C18: wrong error kind");
+            if unchanged {
+                assert!(observe_uenum(cur) == before, "C18: target changed by an assignment that failed for lack of room");
+            } else {
+                assert!(UEnum::validate(cur.as_bytes()).is_ok(), "C18: target bytes no longer validate after a failed assignment");
+                let _ = cur.size();
+                let _ = observe_uenum(cur);
+                let _ = cur.assign_in_place(UEnumInitA).map(|_| ());
+            }
+        }
+    }
+}
+stamp!(c18_uenum_valid_after_err, 18, c18_uenum(false));
+stamp!(c18_uenum_unchanged_after_err, 18, c18_uenum(true));
+
+fn observe_ustruct(v: &UStruct) -> Obs {
+    let mut o = Obs { tag: v.a, x: 0, y: v.b, n: v.c.len(), e: [0; 4] };
+    let s = v.c.as_slice();
+    let mut i = 0;
+    while i < 4 { if i < s.len() { o.e[i] = s[i]; } i += 1; }
+    o
+}
+
+/// UStruct, N = 10 (capacity up to 4): every valid current value; replacement fields + flat_vec! of 0 / 2 / 5 elements.
+fn c18_ustruct(unchanged: bool) {
+    let mut back = Backing::<16>(kani::any());
+    let len = any_fill(10);
+    let cur = match UStruct::from_mut_bytes(&mut back.0[..len]) { Ok(v) => v, Err(_) => return };
+    let before = observe_ustruct(cur);
+    let (a, bb): (u8, u16) = (kani::any(), kani::any());
+    let e: [u8; 5] = any_arr();
+    let sel: u8 = kani::any();
+    let (k, res) = match sel {
+        0 => (0, cur.assign_in_place(UStructInit { a, b: bb, c: flat_vec![] }).map(|_| ())),
+        1 => (2, cur.assign_in_place(UStructInit { a, b: bb, c: flat_vec![e[0], e[1]] }).map(|_| ())),
+        _ => (5, cur.assign_in_place(UStructInit { a, b: bb, c: flatty::vec::FromArray(e) }).map(|_| ())),
+    };
+    assert!(res.is_ok() == (6 + k <= floor_to(len, 2)), "C18: assignment outcome differs from 'the replacement fits'");
+    match res {
+        Ok(()) => {
+            let after = observe_ustruct(cur);
+            assert!(after.tag == a && after.y == bb && after.n == k, "C03: assigned content is not read back");
+            assert!(UStruct::validate(cur.as_bytes()).is_ok(), "C03: assigned value does not validate");
+        }
+        Err(err) => {
+            assert!(err.kind == ErrorKind::InsufficientSize, "C18: wrong error kind");
+            if unchanged {
+                assert!(observe_ustruct(cur) == before, "C18: target changed by an assignment that failed for lack of room");
+            } else {
+                assert!(UStruct::validate(cur.as_bytes()).is_ok(), "C18: target bytes no longer validate after a failed assignment");
+                let _ = cur.size();
+                let _ = observe_ustruct(cur);
+                let _ = cur.assign_in_place(UStructInit { a, b: bb, c: flat_vec![] }).map(|_| ());
+            }
+        }
+    }
+}
+stamp!(c18_ustruct_valid_after_err, 18, c18_ustruct(false));
+stamp!(c18_ustruct_unchanged_after_err, 18, c18_ustruct(true));
+
+fn observe_vec(v: &FlatVec<u8, u16>) -> Obs {
+    let mut o = Obs { tag: 0, x: 0, y: 0, n: v.len(), e: [0; 4] };
+    let s = v.as_slice();
+    let mut i = 0;
+    while i < 4 { if i < s.len() { o.e[i] = s[i]; } i += 1; }
+    o
+}
+
+/// FlatVec<u8,u16>, N = 6 (capacity up to 4): replacement flat_vec! of 1 / 5 elements (FromArray) or an iterator of
+/// 0..=5 items (FromIterator).
+fn c18_vec(unchanged: bool, from_iter: bool) {
+    let mut back = Backing::<8>(kani::any());
+    let len = any_fill(6);
+    let cur = match FlatVec::<u8, u16>::from_mut_bytes(&mut back.0[..len]) { Ok(v) => v, Err(_) => return };
+    let before = observe_vec(cur);
+    let e: [u8; 5] = any_arr();
+    let (k, res) = if from_iter {
+        let k = any_fill(5);
+        (k, cur.assign_in_place(flatty::vec::FromIterator(e.into_iter().take(k))).map(|_| ()))
+    } else if kani::any() {
+        (1, cur.assign_in_place(flat_vec![e[0]]).map(|_| ()))
+    } else {
+        (5, cur.assign_in_place(flatty::vec::FromArray(e)).map(|_| ()))
+    };
+    assert!(res.is_ok() == (2 + k <= floor_to(len, 2)), "C18: assignment outcome differs from 'the replacement fits'");
+    match res {
+        Ok(()) => {
+            assert!(cur.len() == k, "C03: assigned content is not read back");
+            assert!(FlatVec::<u8, u16>::validate(cur.as_bytes()).is_ok(), "C03: assigned value does not validate");
+        }
+        Err(err) => {
+            assert!(err.kind == ErrorKind::InsufficientSize, "C18: wrong error kind");
+            if unchanged {
+                assert!(observe_vec(cur) == before, "C18: target changed by an assignment that failed for lack of room");
+            } else {
+                assert!(FlatVec::<u8, u16>::validate(cur.as_bytes()).is_ok(), "C18: target bytes no longer validate after a failed assignment");
+                let _ = cur.size();
+                let _ = observe_vec(cur);
+                let _ = cur.assign_in_place(flat_vec![e[0]]).map(|_| ());
+            }
+        }
+    }
+}
+stamp!(c18_vec_from_array_valid_after_err, 10, c18_vec(false, false));
+stamp!(c18_vec_from_array_unchanged_after_err, 10, c18_vec(true, false));
+stamp!(c18_vec_from_iterator_valid_after_err, 10, c18_vec(false, true));
+stamp!(c18_vec_from_iterator_unchanged_after_err, 10, c18_vec(true, true));
+
+fn observe_flex(v: &FlexVec<u16, u16>) -> Obs {
+    let mut o = Obs { tag: 0, x: 0, y: 0, n: 0, e: [0; 4] };
+    let mut it = v.iter();
+    let mut i = 0;
+    while i < 3 {
+        if let Some(x) = it.next() { o.n += 1; if i == 0 { o.x = *x as u32; } if i == 1 { o.y = *x; } }
+        i += 1;
+    }
+    o
+}
+
+/// FlexVec<u16,u16>, N = 8 (up to 2 items): every valid current chain; replacement = iterator of 0..=3 items.
+fn c18_flex(unchanged: bool) {
+    let mut back = Backing::<8>(kani::any());
+    let len = any_fill(8);
+    let cur = match FlexVec::<u16, u16>::from_mut_bytes(&mut back.0[..len]) { Ok(v) => v, Err(_) => return };
+    let before = observe_flex(cur);
+    let e: [u16; 3] = any_arr();
+    let m = any_fill(3);
+    let res = cur.assign_in_place(flatty::flex::FromIterator::new(e.into_iter().take(m))).map(|_| ());
+    let need = if m == 0 { 2 } else { 4 * m };
+    assert!(res.is_ok() == (need <= floor_to(len, 2)), "C18: assignment outcome differs from 'the replacement fits'");
+    match res {
+        Ok(()) => {
+            assert!(observe_flex(cur).n == m, "C03: assigned content is not read back");
+            assert!(FlexVec::<u16, u16>::validate(cur.as_bytes()).is_ok(), "C03: assigned value does not validate");
+        }
+        Err(err) => {
+            assert!(err.kind == ErrorKind::InsufficientSize, "C18: wrong error kind");
+            if unchanged {
+                assert!(observe_flex(cur) == before, "C18: target changed by an assignment that failed for lack of room");
+            } else {
+                assert!(FlexVec::<u16, u16>::validate(cur.as_bytes()).is_ok(), "C18: target bytes no longer validate after a failed assignment");
+                let _ = cur.size();
+                let _ = observe_flex(cur);
+                let _ = cur.assign_in_place(flatty::flex::Empty).map(|_| ());
+            }
+        }
+    }
+}
+stamp!(c18_flex_valid_after_err, 12, c18_flex(false));
+stamp!(c18_flex_unchanged_after_err, 12, c18_flex(true));
